@@ -301,7 +301,8 @@ theorem agree_of_post {M : Except Err (List Msg)} {x : Except PyErr (Heap × Lis
   | ok r => obtain ⟨h', refs', rfl, hd⟩ := h; simp only [Except.map]; rw [hd]
   | error e => simp only at h ⊢; rw [h]; rfl
 
-/-- generated `quantise(step_sizes)` = hand model `quantise` (same messages, or the same error: IndexError for an empty list of
+/-- generated `quantise(step_sizes)` = hand model `quantiseS` — the source repaired for D41 calls `normalise_absolute()` first, the model
+    is the walk `SCoda.quantise` on the sorted list (Model/QuantiseS.lean) — (same messages, or the same error: IndexError for an empty list of
     step sizes, KeyError for a note-off that follows a dropped note-on of another … exactly where the model raises).  The generated
     code re-times the message OBJECTS in the heap (`message_to_append = msg; message_to_append.time = …`) and collects references;
     read back through the final heap this is the model's list.  `step_sizes=None` ↦ `Gen.defaultStepSizes` (link).
@@ -309,7 +310,7 @@ theorem agree_of_post {M : Except Err (List Msg)} {x : Except PyErr (Heap × Lis
     model computes `t / s`, the code `t // s`: for `s = 0` the code raises ZeroDivisionError, for `s < 0` it floors the other way). -/
 theorem quantise_eq (h : Heap) (refs : List Nat) (steps : Option (List Int)) (hr : RefsOk h refs) (hc : HeapChOk h)
     (hnd : refs.Nodup) (hpos : ∀ s ∈ steps.getD Gen.defaultStepSizes, 0 < s) :
-    AgreeSeq (Gen.Abs2.quantise h refs steps) (SCoda.quantise (steps.getD Gen.defaultStepSizes) (deref h refs)) := by
+    AgreeSeq (Gen.Abs2.quantise h refs steps) (SCoda.quantiseS (steps.getD Gen.defaultStepSizes) (deref h refs)) := by
   cases steps with
   | none =>
     have : Gen.Abs2.quantise h refs none = Gen.Abs2.quantise h refs (some Gen.defaultStepSizes) := by
@@ -320,7 +321,7 @@ theorem quantise_eq (h : Heap) (refs : List Nat) (steps : Option (List Int)) (hr
 
 /-- the same on the initial state "every message is its own object" -/
 theorem quantise_init (a : List Msg) (steps : Option (List Int)) (hc : HeapChOk a) (hpos : ∀ s ∈ steps.getD Gen.defaultStepSizes, 0 < s) :
-    AgreeSeq (Gen.Abs2.quantise a (refsOf a) steps) (SCoda.quantise (steps.getD Gen.defaultStepSizes) a) := by
+    AgreeSeq (Gen.Abs2.quantise a (refsOf a) steps) (SCoda.quantiseS (steps.getD Gen.defaultStepSizes) a) := by
   have hr : RefsOk a (refsOf a) := by intro r hr; simpa [refsOf] using hr
   have := quantise_eq a (refsOf a) steps hr hc (by simpa [refsOf] using List.nodup_range) hpos
   rwa [deref_refsOf] at this
@@ -328,6 +329,12 @@ theorem quantise_init (a : List Msg) (steps : Option (List Int)) (hc : HeapChOk 
 example : (∀ s ∈ Gen.defaultStepSizes, 0 < s) ∧
     (Gen.Abs2.quantise [{ ty := .noteOn, ch := 1, time := 5, note := 60, vel := 90 }, { ty := .noteOff, ch := 1, time := 9, note := 60 }]
       [0, 1] none).map (fun r => (deref r.1 r.2).map (·.time)) = .ok [4, 8] := by decide
+
+/-- the recorded input of finding D41 (one tick stored note-on before note-off): the generated text of the repaired source sorts first and
+    keeps the second note [48,100); no note-off is fabricated (the final heap has the four input objects only) -/
+example : (Gen.Abs2.quantise [{ ty := .noteOn, ch := 0, time := 0, note := 60, vel := 64 }, { ty := .noteOn, ch := 0, time := 50, note := 60, vel := 70 },
+      { ty := .noteOff, ch := 0, time := 50, note := 60 }, { ty := .noteOff, ch := 0, time := 100, note := 60 }]
+      [0, 1, 2, 3] (some [4])).map (fun r => (r.1.length, r.2, (deref r.1 r.2).map (·.time))) = .ok (4, [0, 2, 1, 3], [0, 48, 48, 100]) := by decide
 
 /-- generated `quantise_note_lengths(note_values, standard_length, do_not_extend)` = hand model `quantiseNoteLengths` (same messages, or
     the same error).  The generated code pairs the notes (`get_message_pairings()`, imputed note-offs are NEW heap cells), builds
